@@ -307,6 +307,12 @@ pub fn run(lines: &[Value], opts: &FlowOpts, trace_path: &str) -> Summary {
                 x[2 * k + 1] = [1e-300, f64::MIN_POSITIVE, 1e-200][rng.gen_range(0..3)];
                 sm.count("runs_with_underflowing_xi");
             }
+            // now and then a Gamma coordinate for which the quantile is an error (0 for dod >= 1) or next to it: the call then ends
+            // with GammaError after 2E-1 reads, it must not go on reading
+            if r == 3 && ngraphs % 3 == 0 && dim > 2 * e - 2 {
+                x[2 * e - 2] = [0.0, 0.0, f64::MIN_POSITIVE, 1e-300][rng.gen_range(0..4)];
+                sm.count("runs_with_degenerate_gamma_coordinate");
+            }
             let extra = if r % 2 == 0 { 3 } else { 0 };
             let fr = trace_one(s.as_ref(), &g, &x, &lat, extra, &set, &mut rng, None);
             run_id += 1;
